@@ -95,19 +95,34 @@ def plan(ch, tier):
 def _plan_boot(ch):
     knobs = draw_knobs(ch, p_faulty=0.4)
     ops = []
+    # variables declared in the machine config (machine_vars: section) with an initial value; persist is the spec's
+    # default (true), given explicitly or left out
+    declared = {}
+    for n in ("v0", "v1", "v2"):
+        if ch.flag("declared_" + n, 0.35):
+            vt = ch.pick("decl_type", ["int", "str", "float"])
+            declared[n] = {"initial_value": {"int": 4, "str": "5", "float": 0.5}[vt], "value_type": vt}
+            if ch.flag("decl_persist_explicit", 0.5):
+                declared[n]["persist"] = True
     for _ in range(1 + ch.choice("nops", 7)):
         k = ch.weighted("bop", [("set", 6), ("remove", 1)])
-        op = {"op": k, "name": "v%d" % ch.choice("vname", 4),
+        op = {"op": k, "name": ["v0", "v1", "v2", "v3", "master_volume"][ch.choice("vname", 5)],
               "dt": ch.pick("dt", [0.0, 0.01, 0.3, 0.9, 1.0, 1.1, 2.0, 30.0])}
         if k == "set":
             op["value"] = _gen_value(ch, 1)
+            if op["name"] == "master_volume":
+                op["value"] = ch.pick("volume", [0.0, 0.3, 1.0, 0.5])
+            elif op["name"] in declared and ch.flag("empty_value", 0.5):
+                # a variable that has a configured initial value is set to an "empty" value of its kind
+                op["value"] = ch.pick("empty", [0, "", 0.0, False])
             # persistence is a fixed attribute of a name (v3 is the volatile one): turning a persistent variable
             # into a volatile one later is outside the statement
             op["persist"] = op["name"] != "v3"
             op["expire"] = ch.pick("expire", [None, None, 5, 60, 3600, 86400])
         ops.append(op)
     fate = ch.weighted("fate", [("shutdown", 3), ("crash", 2)])
-    return {"family": "boot", "knobs": knobs, "ops": ops, "fate": fate,
+    return {"family": "boot", "knobs": knobs, "ops": ops, "fate": fate, "declared": declared,
+            "after_reboot": [["v0", "v1", "v2", "master_volume"][ch.choice("rname", 4)] for _ in range(ch.choice("n_after", 3))],
             "p_yield": ch.pick("p_yield", [0.0, 0.15, 0.35]),
             "shutdown_dt": ch.pick("shutdown_dt", [0.0, 0.05, 0.5, 1.0, 2.5]),
             "crash_n": 1 + ch.choice("crash_n", 30),
@@ -626,8 +641,12 @@ def _execute_boot(ctx, plan):
     fs.on_op = on_fs_op
 
     # ---- boot 1 -----------------------------------------------------------------------------
-    sim = ctx.new_sim("c15", pre_boot=setup, data_manager_factory=factory)
+    declared = plan.get("declared") or {}
+    patches = {"machine_vars": copy.deepcopy(declared)} if declared else None
+    sim = ctx.new_sim("c15", pre_boot=setup, data_manager_factory=factory, patches=patches)
     sim.boot()
+    if declared:
+        ctx.probe("declared_machine_vars")
     m = sim.machine
     sched = env["sched"]
     # variables MPF itself persists (e.g. master_volume from mpfconfig.yaml) are part of the persisted subset
@@ -712,18 +731,26 @@ def _execute_boot(ctx, plan):
     env["crashed"] = False
     state["armed"] = False
     sim2 = ctx.new_sim("c15", pre_boot=setup, data_manager_factory=factory, start_time=t_end + plan["off_time"],
-                       knobs={})
+                       knobs={}, patches=patches)
     sim2.boot()
     ctx.probe("reboot_reload")
     boot_ts = sim2.clock.get_datetime().timestamp()
     m2 = sim2.machine
+    # mpfconfig.yaml declares master_volume (initial value 0.5) for every machine
+    declared_all = dict(declared, master_volume={"initial_value": 0.5})
     for name, st in (disk or {}).items():
         got = m2.variables.get_machine_var(name)
         present = m2.variables.is_machine_var(name)
         exp = st.get("expire")
         if exp and exp < boot_ts - 2.0:
             ctx.probe("expired_var_dropped")
-            if present:
+            if present and name in declared_all:
+                # an expired variable that the config declares starts over from its configured initial value
+                init = declared_all[name]["initial_value"]
+                if not _eq(got, init):
+                    ctx.violation("expired_var_reloaded", "expiry", "%s expired at %.3f; after the boot at %.3f it should "
+                                  "start from its initial value %r but is %r" % (name, exp, boot_ts, init, got))
+            elif present:
                 ctx.violation("expired_var_reloaded", "expiry", "%s expired at %.3f but was reloaded at boot time %.3f "
                               "with value %r" % (name, exp, boot_ts, got))
         elif exp and exp < boot_ts + 2.0:
@@ -732,6 +759,21 @@ def _execute_boot(ctx, plan):
             if not present or not _eq(got, st["value"]):
                 ctx.violation("persisted_var_not_reloaded", "reload", "%s=%r was on disk (expire %r, boot at %.3f) but "
                               "after reboot is_machine_var=%r value=%r" % (name, st["value"], exp, boot_ts, present, got))
+    # ---- the reloaded variables are still persistent: a change after the reboot is handed over as well -----------
+    for i, name in enumerate(plan.get("after_reboot") or []):
+        on_disk = name in (disk or {}) and m2.variables.is_machine_var(name)
+        if not (on_disk or name in declared or name == "master_volume"):
+            continue
+        value = 0.25 + i / 16.0 if name == "master_volume" else "after-reboot-%d" % i
+        ctx.probe("set_after_reboot")
+        sim2.run(0.3)
+        m2.variables.set_machine_var(name, value)
+        last = snapshots[-1].get(name) if len(snapshots) > 1 else None
+        if last is None or not _py_equal(last.get("value"), value):
+            ctx.violation("persist_subset_wrong", "after_reboot", "%s is a persistent variable (%s) but after the reboot "
+                          "setting it to %r was not handed to the data manager; last data handed over: %r"
+                          % (name, "declared in machine_vars: %r" % (declared[name],) if name in declared else
+                             "reloaded from disk", value, snapshots[-1]))
     env["sched"].kill_all()
 
 
